@@ -302,6 +302,16 @@ INVALID = (
 )
 
 
+# every combination of the three allocation fields over {unset, 1, 2} that the documented rule excludes
+# (`nodes` together with `cpus`; `cpus_per_node` without `nodes`)
+for _c, _n, _p in itertools.product((None, 1, 2), repeat=3):
+    if (_n and _c) or (_p and not _n):
+        _kw = {k: v for k, v in (("cpus", _c), ("nodes", _n), ("cpus_per_node", _p)) if v is not None}
+        if _kw not in INVALID:
+            INVALID.append(_kw)
+INVALID += [{"memory": m} for m in ["2 GB", " 2GB", "2GB ", "1 024MB"]]
+
+
 def check_invalid(kw):
     try:
         Resources(**kw)
